@@ -15,6 +15,9 @@ Next == Build \/ Run
 Spec == Init /\ [][Next]_vars
 Refines == ~building => S!Refines
 Tracks == S!OffsetTracksPosition
+\* a reader left on a header is synced: searching again from there finds it at offset 0
+R == INSTANCE Sync WITH Stream <- S!Rest(stream)
+Idempotent == S!Found(stream) => (R!Found(S!Rest(stream)) /\ R!First(S!Rest(stream)) = 0)
 \* every run terminates: in a terminal (deadlocked) state the search has finished
 Terminates == (~building /\ ~ENABLED Run) => pc = "done"
 =============================================================================
